@@ -1,36 +1,45 @@
 #!/usr/bin/env python3
-"""Runs every seeded change against the check of the property it breaks and records how it was detected."""
-import glob, json, os, re, shutil, subprocess, sys, tempfile
+"""Runs every seeded change against the check of the property it breaks and records how it was detected.
+Each change is applied to a scratch copy of /repo/src (VERIF_REPO_ROOT / VERIF_OUT), never to /repo.   usage: seed_matrix.py [-j N]"""
+import glob, json, os, shutil, subprocess, sys, tempfile
+from concurrent.futures import ThreadPoolExecutor
 ROOT = "/verif"
-out = {}
-bk = tempfile.mkdtemp()
-shutil.copytree(f"{ROOT}/evidence", f"{bk}/evidence")
-assert subprocess.run(["git", "-C", "/repo", "status", "--short"], capture_output=True, text=True).stdout.strip() == "", "/repo dirty"
-for d in sorted(glob.glob(f"{ROOT}/seeded/*-[a-z]")):
+
+
+def one(d):
     sid = os.path.basename(d)
     prop = sid.split("-")[0]
-    a = subprocess.run(["git", "-C", "/repo", "apply", f"{d}/patch.diff"], capture_output=True, text=True)
-    if a.returncode != 0:
-        out[sid] = {"applies": False, "err": a.stderr[-200:]}
-        print(sid, "PATCH DOES NOT APPLY")
-        continue
-    shutil.rmtree(f"{ROOT}/replays", ignore_errors=True)
-    p = subprocess.run([f"{ROOT}/vp", "check", prop], capture_output=True, text=True)
-    subprocess.run(["git", "-C", "/repo", "checkout", "--", "."])
-    viol = [l for l in p.stdout.split("\n") if l.startswith("VIOLATION")]
-    kinds, obls = set(), set()
-    for f in glob.glob(f"{ROOT}/replays/*.json"):
-        j = json.load(open(f))
-        kinds.add(j.get("kind"))
-        if j.get("kind") == "failed-obligation":
-            obls.add(j.get("obligation"))
-    und = [l for l in p.stdout.split("\n") if l.startswith("UNDECIDED")]
-    out[sid] = {"applies": True, "rc": p.returncode, "violations": len(viol), "by": sorted(k for k in kinds if k), "obligations": sorted(obls)[:6],
-                "no_failing_input": any("no-failing-input-found" in v for v in viol), "undecided": [u[:160] for u in und][:3]}
-    print(sid, "rc", p.returncode, sorted(k for k in kinds if k), sorted(obls)[:2])
-    m = json.load(open(f"{d}/meta.json"))
-    m["detected_by"] = {"check": f"./vp check {prop}", "exit": p.returncode, "how": sorted(k for k in kinds if k), "failed_obligations": sorted(obls)[:6]}
-    json.dump(m, open(f"{d}/meta.json", "w"), indent=1)
-shutil.rmtree(f"{ROOT}/evidence"); shutil.copytree(f"{bk}/evidence", f"{ROOT}/evidence"); shutil.rmtree(bk)
+    w = tempfile.mkdtemp(prefix="vseed.")
+    try:
+        shutil.copytree("/repo/src", f"{w}/src")
+        a = subprocess.run(["patch", "-p1", "-s", "-i", f"{d}/patch.diff"], cwd=w, capture_output=True, text=True)
+        if a.returncode != 0:
+            return sid, {"applies": False, "err": (a.stdout + a.stderr)[-200:]}
+        env = dict(os.environ, VERIF_REPO_ROOT=w, VERIF_OUT=f"{w}/out")
+        p = subprocess.run([f"{ROOT}/vp", "check", prop], capture_output=True, text=True, env=env)
+        viol = [l for l in p.stdout.split("\n") if l.startswith("VIOLATION")]
+        kinds, obls = set(), set()
+        for f in glob.glob(f"{w}/out/replays/*.json"):
+            j = json.load(open(f))
+            kinds.add(j.get("kind"))
+            if j.get("kind") == "failed-obligation":
+                obls.add(j.get("obligation"))
+        und = [l for l in p.stdout.split("\n") if l.startswith("UNDECIDED")]
+        return sid, {"applies": True, "rc": p.returncode, "violations": len(viol), "by": sorted(k for k in kinds if k), "obligations": sorted(obls)[:6],
+                     "no_failing_input": any("no-failing-input-found" in v for v in viol), "undecided": [u[:160] for u in und][:3]}
+    finally:
+        shutil.rmtree(w, ignore_errors=True)
+
+
+n = int(sys.argv[sys.argv.index("-j") + 1]) if "-j" in sys.argv else 3
+out = {}
+with ThreadPoolExecutor(n) as ex:
+    for sid, r in ex.map(one, sorted(glob.glob(f"{ROOT}/seeded/*-[a-z]"))):
+        out[sid] = r
+        print(sid, "rc", r.get("rc"), r.get("by"), r.get("obligations", [])[:2], flush=True)
+        if r.get("applies"):
+            m = json.load(open(f"{ROOT}/seeded/{sid}/meta.json"))
+            m["detected_by"] = {"check": f"./vp check {sid.split('-')[0]}", "exit": r["rc"], "how": r["by"], "failed_obligations": r["obligations"]}
+            json.dump(m, open(f"{ROOT}/seeded/{sid}/meta.json", "w"), indent=1)
 json.dump(out, open(f"{ROOT}/seeded/MATRIX.json", "w"), indent=1)
 print("detected:", sum(1 for v in out.values() if v.get("rc") == 1), "of", len(out))
